@@ -412,6 +412,23 @@ func init() {
 		})
 		return mutant{raw: encBlock(nb), expB: vReject, expH: vAccept, hdrValid: true}
 	})
+	tx("tx-dup-tail-nomerkle", "the last transaction(s) repeated, header untouched: an odd Merkle leaf is paired with itself, so the root, the hash and the witness are B's own, but the list holds a transaction twice", false,
+		func(w *world, cr Corruption) mutant {
+			n := len(w.B.Transactions)
+			nb := w.freshB()
+			switch {
+			case n%2 == 1:
+				nb.Transactions = append(nb.Transactions, cloneTx(nb.Transactions[n-1]))
+			case n%4 == 2 && n > 2:
+				nb.Transactions = append(nb.Transactions, cloneTx(nb.Transactions[n-2]), cloneTx(nb.Transactions[n-1]))
+			default:
+				return mutant{skip: "transaction count gives no odd Merkle level"}
+			}
+			if nb.ComputeMerkleRoot() != w.B.MerkleRoot {
+				return mutant{skip: "harness: Merkle root changed"}
+			}
+			return mutant{raw: encBlock(nb), expB: vReject, expH: vAccept, hdrValid: true, labels: []string{"tx-dup-tail-same-root"}}
+		})
 	tx("tx-drop-nomerkle", "a transaction removed, header untouched: Merkle root mismatch (the header is B's own valid header)", false,
 		func(w *world, cr Corruption) mutant {
 			n := len(w.B.Transactions)
